@@ -7,19 +7,24 @@ Open Scope Z_scope.
 Definition maxUDPSize  : Z := 512.
 Definition maxDNS0Size : Z := 4094.
 Definition maxTCPSize  : Z := 65535.
+Definition maxUDPPayload : Z := 65507.   (* what one datagram can carry *)
 
 (* udp.go:
      if rsize > maxUDPSize && (rsize > int(q.MsgSize) || rsize > maxDNS0Size) {
         if q.MsgSize > maxUDPSize { if rsize > int(q.MsgSize) { rsize = int(q.MsgSize) } }
         else { rsize = maxUDPSize }
         rbuf[2] |= 0x2 }
+     if rsize > maxUDPPayload { rsize = maxUDPPayload; rbuf[2] |= 0x2 }
    returns the new size and whether the TC bit was OR-ed in. *)
-Definition udp_adjust (msgsize rsize : Z) : Z * bool :=
+Definition udp_adjust0 (msgsize rsize : Z) : Z * bool :=
   if (rsize >? maxUDPSize) && ((rsize >? msgsize) || (rsize >? maxDNS0Size)) then
     if msgsize >? maxUDPSize then
       ((if rsize >? msgsize then msgsize else rsize), true)
     else (maxUDPSize, true)
   else (rsize, false).
+Definition udp_adjust (msgsize rsize : Z) : Z * bool :=
+  let '(n, tc) := udp_adjust0 msgsize rsize in
+  if n >? maxUDPPayload then (maxUDPPayload, true) else (n, tc).
 
 (* OR 0x2 into byte 2 (the TC bit of the flags' high byte) *)
 Definition set_tc (msg : bytes) : bytes :=
@@ -50,7 +55,7 @@ Definition decode_prefix (frame : bytes) : Z :=
    m = advertised size used by the proxy (512 when absent), r = length of the
    upstream message, n = length of the datagram sent, tc = TC bit of it,
    tc0 = TC bit of the upstream message. *)
-Definition limit (m : Z) : Z := Z.max 512 m.
+Definition limit (m : Z) : Z := Z.min 65507 (Z.max 512 m).
 Definition c05_udp_ok (m r n : Z) (tc tc0 : bool) : bool :=
   (n <=? limit m) && (implb (n <? r) tc) && (implb (r <=? limit m) (n =? r))
   && (implb tc0 tc).
